@@ -516,6 +516,38 @@ def w_self_loops(ctx, rng, i):
     ctx.count_case(("self_loops", kind, n, len(loops)), nontrivial=True)
 
 
+def w_signed_weights(ctx, rng, i):
+    """Edge weights may be negative (the shortest-path interface offers algorithms for exactly that): weights that cancel
+    around a vertex do not make its edges disappear (structure queries only)."""
+    import menpo.shape as ms
+    kind = ["U", "D", "PU", "PD"][i % 4]
+    directed = kind in ("D", "PD")
+    n = int(rng.integers(3, 11))
+    edges = gen.random_directed_edges(rng, n, 0.3, antiparallel=False) if directed else gen.random_undirected_edges(rng, n, 0.35)
+    if len(edges) < 2:
+        edges = [(0, 1), (1, 2)]
+    w = rng.uniform(0.5, 5.0, len(edges))
+    # make the weights around one vertex cancel exactly: +a and -a on two of its edges (row and column sums 0)
+    v = edges[int(rng.integers(0, len(edges)))][0]
+    inc = [k for k, e in enumerate(edges) if v in e]
+    if len(inc) >= 2:
+        a = float(np.round(rng.uniform(1, 4), 2))
+        for k in inc:
+            w[k] = 0.0
+        w[inc[0]], w[inc[1]] = a, -a
+        inc = inc[:2] + [k for k in inc[2:]]
+        edges = [e for k, e in enumerate(edges) if k not in inc[2:]]
+        w = np.array([x for k, x in enumerate(w) if k not in inc[2:]])
+    else:
+        w[rng.integers(0, len(w))] *= -1
+    a_ = gen.adjacency(n, edges, not directed, weights=list(w), dense=bool(i % 2))
+    pts = gen.points(rng, n, 2)
+    g = {"U": lambda: ms.UndirectedGraph(a_), "D": lambda: ms.DirectedGraph(a_), "PU": lambda: ms.PointUndirectedGraph(pts, a_),
+         "PD": lambda: ms.PointDirectedGraph(pts, a_)}[kind]()
+    judge_structure(ctx, g, n, edges, directed, type(g).__name__ + ":signed_weights")
+    ctx.count_case(("signed_weights", kind, n), nontrivial=True)
+
+
 def w_trees(ctx, rng, i):
     import menpo.shape as ms
     n = int(rng.integers(2, 41 if ctx.tier == "thorough" else 22))
@@ -619,6 +651,7 @@ def w_grids(ctx, rng, i):
 WORKLOADS = [
     Workload("grids", w_grids, quick=200, thorough=4000),
     Workload("self_loops", w_self_loops, quick=400, thorough=8000),
+    Workload("signed_weights", w_signed_weights, quick=400, thorough=8000),
     Workload("exhaustive_small", w_exhaustive, quick=N_SMALL, thorough=N_SMALL, exhaustive=True),
     Workload("random_graphs", w_random, quick=600, thorough=20000),
     Workload("random_trees", w_trees, quick=800, thorough=30000),
